@@ -1,7 +1,7 @@
 (* Properties_C08.v — C08: output options change only the lexical form, never the content.
    Model: OutoptDefs.v (indent automaton of FormatterToXMLUnicode + XalanIndentWriter as coded, token-level
    reader, text method, option selection, HTML table look-ups); facts regenerated from /repo: GenOutopt.v. *)
-From Coq Require Import NArith ZArith List Bool.
+From Coq Require Import NArith ZArith List Bool Lia.
 Require Import XV.SerDefs XV.GenOutopt XV.OutoptDefs XV.OutoptModel.
 Import ListNotations.
 Local Open Scope N_scope.
@@ -13,7 +13,7 @@ Theorem automaton_as_modelled :
   ops_startElement = m_startElement /\ ops_endElement = m_endElement /\ ops_endDocument = m_endDocument /\
   ops_comment = m_comment /\ ops_writeProcessingInstruction = m_writeProcessingInstruction /\
   ops_writeCharacters = m_writeCharacters /\ ops_writeCDATA = m_writeCDATA cdata_sets_prevtext /\
-  ops_writeParentTagEnd = m_writeParentTagEnd /\ ops_charactersRaw = m_charactersRaw /\
+  ops_writeParentTagEnd = m_writeParentTagEnd /\ ops_charactersRaw = m_charactersRaw cdata_sets_prevtext /\
   should_indent_is_not_preserve_and_not_prevtext = true /\ dummy_indent_writer_is_empty = true /\
   newline_units = [10] /\ indent_space_unit = 32.
 Proof. repeat split; reflexivity. Qed.
@@ -132,6 +132,17 @@ Proof.
 Qed.
 Print Assumptions text_method_encoding_partial.
 
+(* FULL statement for the repaired FormatterToText (proposed patch of K18): the units when every one is representable,
+   an error otherwise *)
+Theorem text_method_encoding_repaired : forall k evs, k <> EncUtf8 ->
+  ser_text_checked true k evs = encode_spec k (ser_text_units evs).
+Proof.
+  intros k evs Hk. unfold ser_text_checked, encode_spec, ser_text. cbn [andb].
+  destruct (forallb (representable k) (ser_text_units evs)) eqn:E; cbn [negb]; auto.
+  rewrite stream_encode_representable; auto.
+Qed.
+Print Assumptions text_method_encoding_repaired.
+
 Example text_method_instance :
   balanced 0 [EStart [97] []; EText [120]; EComment [99]; ECdata [60]; EStart [98] []; EText [121]; EEnd [98]; EEnd [97]] = true /\
   ser_text EncLatin1 [EStart [97] []; EText [120]; EComment [99]; ECdata [60]; EStart [98] []; EText [121]; EEnd [98]; EEnd [97]] = [120; 60; 121].
@@ -147,3 +158,89 @@ Print Assumptions option_selection_method.
 Theorem option_selection_encoding : forall outs, r_encoding (process_outputs outs) = spec_encoding outs.
 Proof. exact process_outputs_encoding. Qed.
 Print Assumptions option_selection_encoding.
+
+(* cdata-section-elements — FULL statement: r_cdata (process_outputs outs) = spec_cdata outs (the union of all
+   lists).  FALSE of the model and of the code: processOutputSpec records the names only while the method read so
+   far is none/xml, so an xsl:output that follows method="html" (e.g. in an imported stylesheet) and names the
+   elements before it switches back to xml loses them.  (Lexical only: no C08 failure.) *)
+Theorem option_selection_cdata_refuted :
+  let outs := [[AMethod MHtml]; [ACdataElems [[97]]; AMethod MXml]] in
+  spec_method outs = MXml /\ spec_cdata outs = [[97]] /\ r_cdata (process_outputs outs) = [].
+Proof. repeat split; vm_compute; reflexivity. Qed.
+Print Assumptions option_selection_cdata_refuted.
+
+Theorem option_selection_cdata_partial : forall outs, forallb (forallb attr_xmlish) outs = true ->
+  r_cdata (process_outputs outs) = spec_cdata outs.
+Proof. exact process_outputs_cdata. Qed.
+Print Assumptions option_selection_cdata_partial.
+
+(* indent — FULL statement: doIndent = spec_indent outs when the API gives no amount.  FALSE: xalan:indent-amount
+   (or setIndent(n), n >= 0, incl. 0: `indentAmount > -1`) turns indenting on against an explicit indent="no";
+   and html's implicit "yes" survives a later method="xml" *)
+Theorem option_selection_indent_refuted :
+  fst (fst (select_coded (process_outputs [[AIndent false; AIndentAmount 2]]) (mkapi (-1) []))) = true /\
+  spec_indent [[AIndent false; AIndentAmount 2]] = false /\
+  fst (fst (select_coded (process_outputs [[AMethod MHtml]; [AMethod MXml]]) (mkapi (-1) []))) = true /\
+  spec_indent [[AMethod MHtml]; [AMethod MXml]] = false.
+Proof. repeat split; vm_compute; reflexivity. Qed.
+Print Assumptions option_selection_indent_refuted.
+
+Theorem option_selection_indent_partial : forall outs a,
+  forallb (forallb attr_xmlish) outs = true -> forallb (forallb attr_no_amount) outs = true -> (a_indent a < 0)%Z ->
+  fst (fst (select_coded (process_outputs outs) a)) = spec_indent outs.
+Proof. exact select_indent_partial. Qed.
+Print Assumptions option_selection_indent_partial.
+
+(* XalanTransformer::setIndent(n), n >= 0 ("the number of spaces to indent"), switches indenting on with exactly
+   that amount, 0 included: this is the `indentAmount > -1` test regenerated from setupFormatterListener *)
+Theorem option_selection_api_indent : forall r a, (0 <= a_indent a)%Z ->
+  fst (fst (select_coded r a)) = true /\ snd (fst (select_coded r a)) = Z.to_N (a_indent a).
+Proof. exact api_indent_forces_indenting. Qed.
+Print Assumptions option_selection_api_indent.
+
+Example option_selection_instance :
+  forallb (forallb attr_xmlish) [[AMethod MXml; AIndent true]; [ACdataElems [[97]]; AEncoding [85]]] = true /\
+  select_coded (process_outputs [[AMethod MXml; AIndent true]; [ACdataElems [[97]]; AEncoding [85]]]) (mkapi (-1) [])
+  = (true, default_indent_amount_xml, [85]).
+Proof. split; vm_compute; reflexivity. Qed.
+
+(* ---- (5) html_void_raw over the regenerated XalanHTMLElementsProperties table (partial: table level) ------ *)
+(* the void elements of HTML 4.01 are exactly the entries flagged EMPTY; script and style are exactly the entries
+   flagged RAW; look-ups ignore case; an element the table does not know is neither *)
+Definition html4_void : list (list N) :=
+  [[65;82;69;65]; [66;65;83;69]; [66;65;83;69;70;79;78;84]; [66;82]; [67;79;76]; [70;82;65;77;69]; [72;82]; [73;77;71];
+   [73;78;80;85;84]; [73;83;73;78;68;69;88]; [76;73;78;75]; [77;69;84;65]; [80;65;82;65;77]].
+Definition html4_raw : list (list N) := [[83;67;82;73;80;84]; [83;84;89;76;69]].
+
+Theorem html_void_elements_are_html4 :
+  forallb (fun e => Bool.eqb (negb (N.land (snd (fst e)) flag_EMPTY =? 0)) (existsb (list_eqb (fst (fst e))) html4_void)) html_elements = true /\
+  forallb (fun n => html_is flag_EMPTY n) html4_void = true.
+Proof. split; vm_compute; reflexivity. Qed.
+Print Assumptions html_void_elements_are_html4.
+
+Theorem html_raw_elements_are_script_style :
+  forallb (fun e => Bool.eqb (negb (N.land (snd (fst e)) flag_RAW =? 0)) (existsb (list_eqb (fst (fst e))) html4_raw)) html_elements = true /\
+  forallb (fun n => html_is flag_RAW n) html4_raw = true.
+Proof. split; vm_compute; reflexivity. Qed.
+Print Assumptions html_raw_elements_are_script_style.
+
+Theorem html_lookup_ignores_ascii_case : forall flag name,
+  html_is flag (map upper name) = html_is flag name.
+Proof.
+  intros flag name. unfold html_is, html_find.
+  assert (U : forall c, upper (upper c) = upper c).
+  { intros c. unfold upper. destruct ((97 <=? c) && (c <=? 122)) eqn:E.
+    - apply andb_true_iff in E. destruct E as [E1 E2]. apply N.leb_le in E1. apply N.leb_le in E2.
+      destruct ((97 <=? c - 32) && (c - 32 <=? 122)) eqn:F; auto.
+      apply andb_true_iff in F. destruct F as [F1 _]. apply N.leb_le in F1. lia.
+    - rewrite E. reflexivity. }
+  rewrite map_map. rewrite (map_ext _ _ U). reflexivity.
+Qed.
+Print Assumptions html_lookup_ignores_ascii_case.
+
+Example html_table_instance :
+  html_is flag_EMPTY [98; 114] = true /\ html_is flag_EMPTY [66; 82] = true /\ html_is flag_EMPTY [112] = false /\
+  html_is flag_RAW [115; 99; 114; 105; 112; 116] = true /\ html_is flag_EMPTY [102; 111; 111] = false /\
+  html_attr_is aflag_ATTREMPTY [105; 110; 112; 117; 116] [99; 104; 101; 99; 107; 101; 100] = true /\
+  html_attr_is aflag_ATTRURL [97] [104; 114; 101; 102] = true.
+Proof. repeat split; vm_compute; reflexivity. Qed.
